@@ -675,7 +675,7 @@ pub fn run(rep: &mut Report) {
         let name = cfg.name.clone();
         let w = Pair::<u16>::new(Arc::new(cfg));
         let mut lim = if thorough { Limits::new(400, 3_000_000, (1800.0 / n).max(45.0)) } else { Limits::new(400, 400_000, 8.0) };
-        lim.rss_mb = 24_000;
+        lim.rss_mb = 20_000;
         let mut ex = Explorer::new(&name, lim, rep);
         ex.record_delivery_edges = true;
         let st = ex.run(w);
